@@ -45,7 +45,7 @@ def run(ck):
     g = S.g(ro)
     NF = RP + "::m_maxFileCount"
     from rules.rfs import retention_by_cases
-    v_, why_ = retention_by_cases(ck, S, "C06-O3")
+    v_, why_ = retention_by_cases(ck, S, "C06-O3", failures=True)      # also with one removal failing: the files removed are still only the oldest
     if v_ is not None:
         ck.ob("C06-O3", sitestr(ro), v_, why_ if v_ else why_ + ": retention deletes a file that is not among the oldest (or not the right number of them), so a newer log is lost while an older one is kept",
               key="removeOldFiles|by-cases")
